@@ -742,6 +742,9 @@ class Translator:
                 return self.bindall([recv], lambda c: Val(f"(iter_filter (fun {b} => {body.code}) {c[0]})", rt, True))
             if m == "last" and not args:
                 return self.bindall([recv], lambda c: Val(f"(iter_last {c[0]})", t_opt(el), True))
+            if m == "next" and not args:
+                # on an iterator expression (not a `let mut` variable): its first element
+                return self.bindall([recv], lambda c: Val(f"(List.hd_error {c[0]})", t_opt(el), True))
             if m == "find_map":
                 b, body = self.closure(args[0], el, ctx, env, want_pure=False)
                 if body.ty[0] != "opt":
